@@ -17,6 +17,7 @@ RULE = ("conversation scripts over 2-4 accounts and 0-2 groups: 3..10 applicatio
         "contact / link payloads), interleaved at random with the server's process / deliver actions (any enabled one: every per-account "
         "FIFO-respecting schedule), at most one fault (duplicate or corrupt) per (message, recipient), restarts of an account at quiescence; "
         "then drained to quiescence.  Every action is one model step.  distinct = distinct (accounts, groups, action list).")
+RULE += (' Long-lived senders: 104 group / 103 direct messages in one process life, each acknowledged before the next, the last ones damaged once.')
 ASSUMPTIONS = ["symbolic cryptography: a ciphertext opens exactly once, at the holder of the session / sender key it names (python-axolotl exercised, not modelled)",
                "the server double (routing, fan-out, receipts, key and group queries, per-account FIFO queues) is the honest server of the property",
                "fewer than 100 unacknowledged messages per sender; restarts only at quiescence; one fault per (message, recipient)"]
@@ -58,6 +59,15 @@ def cases(chk):
     ]
     for c in corpus:
         yield "script", c
+    # a long-lived sender: more messages in one process life than any bounded memory of sent messages holds (the property's bound is on
+    # UNACKNOWLEDGED messages: each of these is acknowledged before the next), then one whose ciphertext is damaged once
+    for kind, n in (("g", 104), ("u", 103)) if chk.quick() else (("g", 104), ("u", 103), ("g", 230)):
+        script = []
+        for i in range(n):
+            script.append(["send", 1, kind, 0 if kind == "g" else 2, i % 70])
+            script.append(["wait"])
+        yield "script", {"accts": 2, "groups": [[1, 2]] if kind == "g" else [], "script": script, "faults": [[n - 1, "corrupt"], [n - 3, "corrupt"]], "restarts": [],
+                         "seed": 1000 + n}
     # a sender whose FIRST message goes to a group (one key fetch for several members), then one-to-one messages to each of those members
     for i in range(chk.scale(6, 120)):
         na = 3 + i % 2
